@@ -1,3 +1,4 @@
+import aritylib
 """C09 - Eq instances are equivalences and Hashable agrees with Eq.
 
 (A) TLC (Typeclass.tla): SemEq - "the compared components are pairwise equal", with nil/empty containers and distinct
@@ -18,6 +19,8 @@ def run(c):
         return tcrun.replay(c, "C09")
     rng = random.Random(c.seed)
     c.tlc_expect_clean("Typeclass", "MCTypeclass")
+    # the TupleN instances of this typeclass at every arity 2..21 (position-tagged arguments, judged by Arity.tla)
+    aritylib.family_subrun(c, "C09", ["eq.Tuple", "hash.Tuple"])
     cases = []
     for rep in range(4 if c.thorough else 1):
         cases += tclib.cases("eq", rng, per_type=12 if c.thorough else 10) + tclib.cases("hash", rng, per_type=12 if c.thorough else 10)
